@@ -135,12 +135,19 @@ show(X) :- write(X), nl.
 def replay_evaluators(diffs):
     """differential run of the compiled and the run-time evaluator on the functors the solver
     flagged: `X is <literal expr>` in a clause body against `E = <expr>, X is E`."""
-    ops2 = [(7, 2), (-7, 2), (7, -2), (2.5, 2), (1, 3), (12, 18), (5, 0), (0, 5), (2, 10)]
+    ops2 = [(7, 2), (-7, 2), (7, -2), (2.5, 2), (1.5, 2.5), (1, 3), (12, 18), (5, 0), (0, 5), (2, 10)]
     ops1 = [(-3,), (2.5,), (0.5,), (0,), (7,), (-2.5,)]
     clauses, cases = [], []
     n = 0
     for d in diffs:
         f, ar = d["functor"], d["arity"]
+        if ar == 0:
+            n += 1
+            clauses.append("c%d(X) :- X is %s.\nr%d(X) :- E = %s, X is E." % (n, f, n, f))
+            cases.append(("catch(c%d(A), error(EA,_), A = err(EA)), catch(r%d(B), error(EB,_), "
+                          "B = err(EB)), ( A == B -> write(same) ; write(differ(A,B)) ), nl" % (n, n),
+                          "same"))
+            continue
         for ops in (ops2 if ar == 2 else ops1):
             n += 1
             args = ",".join(repr(o) if not isinstance(o, float) else repr(o) for o in ops)
